@@ -1,14 +1,13 @@
 CONSTANTS
-  MaxRoots = 2
+  MaxRoots = 3
   MaxViews = 1
   MaxElems = 2
   Depth = 4
-  Flags = FALSE
-  Rich = FALSE
+  Flags = TRUE
+  Rich = TRUE
 INIT Init
 NEXT Next
 VIEW HView
-ACTION_CONSTRAINT Emit
 INVARIANT TypeOK
 INVARIANT Acyclic
 INVARIANT FrozenStable
